@@ -1869,6 +1869,12 @@ Convex_hull/Monotone_chain>`_
                np.abs(pty[k] - pty[k + 1]) <= min_separation:
                 idx.pop(k)
 
+        # the starting vertex must be kept: drop its successor instead
+        if len(idx) > 3 and \
+           np.abs(ptx[idx[0]] - ptx[idx[1]]) <= min_separation and \
+           np.abs(pty[idx[0]] - pty[idx[1]]) <= min_separation:
+            idx.pop(1)
+
         ptx = ptx[idx]
         pty = pty[idx]
 
